@@ -15,7 +15,7 @@ import zlib
 
 from ..tlc import MachineryError
 from . import codecs
-from .faultdoc import Rev, SeedDoc, assemble
+from .faultdoc import Content, Rev, SeedDoc, assemble
 from .fontpdf import fontfile_stream, tounicode_cmap, truetype_with_cmap, type1_header
 from .pdfwriter import HexStr, Name, Ref, Stream
 
@@ -121,6 +121,27 @@ def seed_deep_tree():
     o[10 + depth] = {"Type": N("Page"), "Parent": Ref(9 + depth), "Contents": Ref(5)}
     return SeedDoc("deep_tree", [Rev(dict(sorted(o.items())))], expect=["Deep page"],
                    features=["page tree 12 levels deep", "attributes inherited over 12 levels"])
+
+
+def seed_big_objstm():
+    """150 pages kept in ONE object stream (plus catalog, page tree nodes and font): what a linearised report looks
+    like.  Every lookup of a member goes through the parsed-object-stream cache; if that cache fails on a damaged
+    stream (cut payload, wrong /N) the stream is re-parsed per lookup and the work grows with the square of the number
+    of members.  Pages 2..150 are copies of page 1 (bulk owners: written, but only page 1 and 2 have sites)."""
+    npages = 150
+    first = 20
+    o = {1: {"Type": N("Catalog"), "Pages": Ref(2)},
+         2: {"Type": N("Pages"), "Kids": [Ref(first + i) for i in range(npages)], "Count": npages, "MediaBox": [0, 0, 200, 200],
+             "Resources": {"Font": {"F1": Ref(4)}}},
+         4: helv(),
+         5: Stream({}, text("Bulk", x=10, y=100))}
+    for i in range(npages):
+        o[first + i] = {"Type": N("Page"), "Parent": Ref(2)}
+    o[first]["Contents"] = Ref(5)
+    packed = [1, 2, 4] + [first + i for i in range(npages)]
+    return SeedDoc("big_objstm", [Rev(dict(sorted(o.items())), form="stream", packed=packed, xref_w=(1, 2, 2))],
+                   expect=["Bulk"], features=["object stream with 153 members", "150 pages"],
+                   bulk_owners=["obj:%d" % (first + i) for i in range(2, npages)], fstride=4)
 
 
 def seed_ascii_filters():
@@ -290,16 +311,18 @@ def seed_pagelabels():
 def seed_xobjects():
     form_inner = Stream({"Type": N("XObject"), "Subtype": N("Form"), "BBox": [0, 0, 100, 100],
                          "Resources": {"Font": {"F1": Ref(4)}}}, text("inner", x=5, y=5))
-    content = (b"q 1 0 0 1 50 500 cm /Fm1 Do Q\n"
+    content = Content([b"q 1 0 0 1 50 500 cm /Fm1 Do Q\n"
                b"q 100 0 0 100 300 500 cm /Im1 Do Q\nq 50 0 0 50 300 300 cm /Im2 Do Q\n"
                b"/CS0 cs 0.2 0.4 0.6 sc /CS1 CS 1 SC /Pat cs /P1 scn\n"
                b"/GS1 gs 1 0 0 RG 0 1 0 rg 0 0 0 1 k 2 w [3 2] 0 d 1 j 1 J 4 M 0.5 i /Perceptual ri\n"
                b"100 100 m 200 100 l 200 200 150 250 100 200 c h S 10 10 50 50 re W n\n"
-               b"/Span << /MCID 0 >> BDC BT /F1 12 Tf 1 0 0 1 72 700 Tm 2 Tc 3 Tw 90 Tz 14 TL 1 Ts 0 Tr\n"
+               b"/Span ", ("props", {"MCID": 0, "Lang": b"en"}),
+               b"BDC BT /F1 12 Tf 1 0 0 1 72 700 Tm 2 Tc 3 Tw 90 Tz 14 TL 1 Ts 0 Tr\n"
                b"[(Te) -50 (xt)] TJ T* (quote) ' 1 2 (dq) \" 5 -5 TD (td) Tj ET EMC\n"
-               b"/OC /MC0 BDC EMC /Tag MP /Tag /MC0 DP BX EX /Sh1 sh\n"
-               b"BI /W 2 /H 2 /BPC 8 /CS /G /F /AHx ID 00ff ff00> EI\n"
-               + text("after image", y=100))
+               b"/OC /MC0 BDC EMC /Tag MP /Tag /MC0 DP /Tag ", ("props", {"K": [1, 2]}), b"DP BX EX /Sh1 sh\n",
+               ("inline", {"W": 2, "H": 2, "BPC": 8, "CS": N("G"), "F": N("AHx"), "DP": {"K": 0}, "IM": False,
+                           "D": [0, 1], "I": True}, b"00ff ff00>"),
+               text("after image", y=100)])
     o = basic({
         5: Stream({}, content),
         6: Stream({"Type": N("XObject"), "Subtype": N("Form"), "BBox": [0, 0, 200, 200], "Matrix": [2, 0, 0, 2, 10, 10],
@@ -350,7 +373,7 @@ def seed_enc_aes256():
     return _encrypted("enc_aes256", 5, 6, 256, "AESV3")
 
 
-BUILDERS = [seed_classic, seed_xrefstream, seed_incremental, seed_incremental_stream, seed_deep_tree, seed_ascii_filters, seed_lzw_rl, seed_predictors,
+BUILDERS = [seed_classic, seed_xrefstream, seed_incremental, seed_incremental_stream, seed_deep_tree, seed_big_objstm, seed_ascii_filters, seed_lzw_rl, seed_predictors,
             seed_simple_fonts, seed_type0, seed_pagelabels, seed_xobjects, seed_enc_rc4, seed_enc_aes128, seed_enc_aes256]
 
 
